@@ -200,3 +200,16 @@ def make_idp(sp_md=None, **over):
     conf = idp_conf(**over)
     conf["metadata"] = {"inline": list(sp_md)}
     return Server(config=IdPConfig().load(copy.deepcopy(conf)))
+
+
+def issuer_of(server):
+    """the Issuer element the server puts into what it builds: through the library's own (private) helper while it exists,
+    otherwise built from the entity id — the harness must not depend on a private name"""
+    f = getattr(server, "_issuer", None)
+    if callable(f):
+        try:
+            return f()
+        except TypeError:
+            pass
+    from saml2_tophat import saml as _saml
+    return _saml.Issuer(text=server.config.entityid, format=_saml.NAMEID_FORMAT_ENTITY)
